@@ -62,7 +62,7 @@ def programs(draw, opts=None):
             return None
         return draw(st.sampled_from(cands))
 
-    def gen_args(callee, nlocs, here_params, keep):
+    def gen_args(callee, nlocs, here_params, keep, inline_cands=()):
         args = []
         rt = False
         for (pname, dflt) in callee["params"]:
@@ -73,8 +73,15 @@ def programs(draw, opts=None):
                 choices.append("loc")
             if opts.get("rt", True) and here_params:
                 choices.append("par")
+            if not keep and opts.get("nested_args") and inline_cands:
+                choices.append("icall")
             c = draw(st.sampled_from(choices))
             sp = draw(st.sampled_from(["pos", "kw"]))
+            if c == "icall":
+                j = draw(st.sampled_from(inline_cands))
+                args.append(["icall", j, draw(st.sampled_from(M.FORMS)), sp])
+                referenced.add(j)
+                continue
             if c == "lit":
                 args.append(["lit", enc(draw(st.sampled_from(LIT_VALUES))), sp])
             elif c == "omit":
@@ -113,7 +120,9 @@ def programs(draw, opts=None):
                     body.append(["ext", 0])
                     continue
                 callee = prog["funcs"][j]
-                args, _rt = gen_args(callee, len(body), here_params, keep=False) if not M.is_data(callee) else ([], False)
+                # functions that may be called inline in an argument: zero-argument callable, not 'unique'
+                inl = [q for q in range(i) if q not in unique and all(d != NO for _, d in prog["funcs"][q]["params"])]
+                args, _rt = gen_args(callee, len(body), here_params, keep=False, inline_cands=inl) if not M.is_data(callee) else ([], False)
                 body.append(["call", j, draw(st.sampled_from(M.FORMS)), args])
                 referenced.add(j)
                 if j in unique:
